@@ -152,6 +152,8 @@ func encodeUint64(n uint64) []byte {
 // 将body转为[]byte，用于网络传输
 func (m *Packet) BodyToBytes() []byte {
 	switch v := m.Body_.(type) {
+	case nil:
+		return nil
 	case string:
 		return []byte(v)
 	case []byte:
